@@ -147,6 +147,7 @@ class Interp:
         self.model_bounds = {}             # variate Atom -> [("lo" | "hi", E)] implied by the decisions that involve it
         self.model_u = {}                  # (draw call number, flat index) -> float: stand-ins for uniform variates, by position
         self.model_uatoms = {}             # variate Atom -> (draw call number, flat index)
+        self.model_unjudged = []           # decisions on variates that could not be turned into interval bounds
         from . import npmodel
         self.np = npmodel.NumpyModel(self)
 
@@ -183,10 +184,33 @@ class Interp:
             return None
         r = {"Eq": False, "NotEq": True, "Lt": x < y, "LtE": x < y, "Gt": x > y, "GtE": x > y}[name]
         self.model_decisions.append((name, ea, eb, r))
-        for u, other, less in ((ea, eb, x < y), (eb, ea, y < x)):
-            if self.is_variate(u) and not any(a_ in self.model_uatoms for a_ in alg.atoms_of(other, deep=True)):
-                self.model_bound(u, "hi" if less else "lo", other)
+        self.variate_bound(ea, eb, x < y)
         return r
+
+    def variate_bound(self, ea, eb, less):
+        """the decision `ea < eb` (less) or `ea > eb` as a bound on the ONE variate that ea - eb is affine in: c*u + rest < 0"""
+        if not self.model_uatoms:
+            return
+        d = lift(ea) - lift(eb)
+        us = [a_ for a_ in alg.atoms_of(d, deep=True) if a_ in self.model_uatoms]
+        if not us:
+            return
+        if len(us) != 1:
+            self.model_unjudged.append("a comparison involves several variates")
+            return
+        u = us[0]
+        try:
+            c = alg.derive(d, {u: ONE})
+        except Exception:
+            self.model_unjudged.append("a variate is compared through a transformation that is not affine")
+            return
+        rest = d - c * E.atom(u)
+        if not c.is_const() or c.cval() == 0 or u in alg.atoms_of(rest, deep=True):
+            self.model_unjudged.append("a variate is compared through a transformation that is not affine")
+            return
+        bound = -rest / c                      # d < 0  <=>  u < bound (c > 0)  or  u > bound (c < 0)
+        upper = (c.cval() > 0) == bool(less)
+        self.model_bounds.setdefault(u, []).append(("hi" if upper else "lo", bound))
 
     # ------------------------------------------------------------------ helpers
     def loc(self, node, env=None):
